@@ -43,17 +43,15 @@ Theorem C14_gap_provenance : forall s ms tr un st,
 Proof. exact rule_gap_provenance. Qed.
 Print Assumptions C14_gap_provenance.
 
-(* the accounting hypothesis holds for deletions, literal templates and
-   templates whose group references are not in order *)
-Theorem C14_delta_ok_untracked : forall s m un, (m_start m <= m_end m)%nat -> delta_ok s m [] un.
-Proof. exact delta_ok_untracked. Qed.
-Print Assumptions C14_delta_ok_untracked.
+(* ... which holds for every match and every template (after the repair of F9) *)
+Theorem C14_delta_ok : forall s m tr un, delta_ok s m tr un.
+Proof. exact delta_ok_all. Qed.
+Print Assumptions C14_delta_ok.
 
-(* ... and it fails for !(a)c -> \1 on "xacy" (known finding F9): the faithful
-   model attributes the character after the match one position too early *)
-Theorem C14_uncovered_refuted :
-  exists s ms tr un st j o,
-    apply_rule s ms tr un = Some st /\ ms_ok s ms 0 /\ In (j, o) (gap_pairs s ms (tr ++ un) 0 0) /\
-    nth_error (st_smap st) (S j) <> Some (Z.of_nat o - Z.of_nat j)%Z.
-Proof. exact uncovered_refuted. Qed.
-Print Assumptions C14_uncovered_refuted.
+Theorem C14_gap_provenance_all : forall s ms tr un st,
+  ms <> [] -> apply_rule s ms tr un = Some st -> ms_ok s ms 0 ->
+  forall j o, In (j, o) (gap_pairs s ms (tr ++ un) 0 0) ->
+    nth_error (st_smap st) (S j) = Some (Z.of_nat o - Z.of_nat j)%Z /\
+    nth_error (st_emap st) (S j) = Some (Z.of_nat o - Z.of_nat j)%Z.
+Proof. exact rule_gap_provenance_all. Qed.
+Print Assumptions C14_gap_provenance_all.
